@@ -34,6 +34,8 @@ pub struct WorldOpts {
     /// genesis also holds script/testdata/exec_caller_from_witness as a code cell and one cell
     /// locked by it (a lock whose verdict depends on the witness): see `witness_lock_cells`
     pub witness_lock: bool,
+    /// primary issuance per epoch (default EPOCH_REWARD, which divides evenly by the 4-block epoch)
+    pub primary_epoch_reward: Option<u64>,
 }
 
 impl Default for WorldOpts {
@@ -48,6 +50,7 @@ impl Default for WorldOpts {
             permanent_difficulty: true,
             genesis_compact_target: DIFF_TWO,
             witness_lock: false,
+            primary_epoch_reward: None,
         }
     }
 }
@@ -143,7 +146,7 @@ pub fn genesis_block_ext(compact_target: u32, witness_lock: bool) -> BlockView {
 pub fn consensus(opts: &WorldOpts) -> Consensus {
     let genesis = genesis_block_ext(opts.genesis_compact_target, opts.witness_lock);
     let epoch_ext = build_genesis_epoch_ext(
-        Capacity::shannons(EPOCH_REWARD),
+        Capacity::shannons(opts.primary_epoch_reward.unwrap_or(EPOCH_REWARD)),
         opts.genesis_compact_target,
         opts.epoch_length,
         opts.epoch_length * 8,
@@ -151,7 +154,7 @@ pub fn consensus(opts: &WorldOpts) -> Consensus {
     );
     let mut b = ConsensusBuilder::new(genesis, epoch_ext)
         .id("verif".to_string())
-        .initial_primary_epoch_reward(Capacity::shannons(EPOCH_REWARD))
+        .initial_primary_epoch_reward(Capacity::shannons(opts.primary_epoch_reward.unwrap_or(EPOCH_REWARD)))
         .tx_proposal_window(ProposalWindow(opts.window.0, opts.window.1))
         .permanent_difficulty_in_dummy(opts.permanent_difficulty)
         .epoch_duration_target(opts.epoch_length * 8)
